@@ -11,7 +11,7 @@ from vlib import core
 
 PROPS = ["Props/C02.v"]
 
-C02_TAGS = ("link_", "gpg_", "family_mismatch", "stranger_link", "invalid_next_to_valid", "several_files")   # gpg_ covers gpg_sigdict
+C02_TAGS = ("link_", "gpg_", "family_mismatch", "stranger_link", "invalid_next_to_valid", "several_files", "keyid_reused")   # gpg_ covers gpg_sigdict
 
 D2B_WHAT = ("a link file for an authorised key that carries a signature of the other key family aborts in_toto_verify "
             "instead of being ignored: gpg-format signature under an sslib key id raises FormatError, sslib-format "
@@ -182,6 +182,35 @@ def pin_counting(case):
             p.link("build", m, ("gpg", m + "!"), M, P, tamper=how)
             tags = ["gpg_sigdict:" + how]
             expect = {"gpg_oh_nibble": "ThresholdVerificationError", "gpg_sig_upper": "accept"}.get(how)   # others: D2b-like aborts
+        elif case.startswith("keyid_reused:"):
+            # a key id is a label chosen by whoever writes a key store: two key stores that one process verifies against
+            # (two layouts in a row, or a layout and the sublayout of one of its steps) may file DIFFERENT keys under
+            # the same id.  The signature of a link counts only if it verifies under the key of the store in force.
+            kid = "cd" * 32
+            x, y = _k(3), _k(4)
+            which = case.split(":")[1]
+            if which in ("first_x_signed_x", "then_y_signed_x", "then_y_signed_y"):
+                own = x if which == "first_x_signed_x" else y
+                signer = y if which == "then_y_signed_y" else x
+                p.store({kid: dict(own.pub, keyid=kid)})
+                p.step("build", [kid], threshold=1)
+                p.link("build", kid, signer, M, P, rewrite=kid)
+                expect = "accept" if own is signer else "ThresholdVerificationError"
+            else:
+                # super layout: X under the id, step a signed by X; step b delegated to k0's sublayout whose own key
+                # store files Y under the same id, its only step attested by X (sub_signed_x) or by Y (sub_signed_y)
+                signer = x if which == "sub_signed_x" else y
+                p.store({kid: dict(x.pub, keyid=kid), k0.keyid: k0.pub})
+                p.step("a", [kid])
+                p.step("b", [k0.keyid])
+                p.link("a", kid, x, M, P, rewrite=kid)
+                sub = vscen.Pin(env)
+                sub.store({kid: dict(y.pub, keyid=kid)})
+                sub.step("inner", [kid])
+                sub.link("inner", kid, signer, P, p.art("pkg.tar"), rewrite=kid)
+                p.sublayout("b", k0.keyid, sub, k0)
+                expect = "accept" if signer is y else "ThresholdVerificationError"
+            tags = ["keyid_reused:" + which]
         elif case == "invalid_not_counted":
             p.store({k0.keyid: k0.pub, k1.keyid: k1.pub})
             p.step("build", [k0.keyid, k1.keyid], threshold=2)
@@ -215,7 +244,9 @@ PINNED = (
         "master_and_subkey_files", "same_key_filed_twice", "authorised_key_not_in_store", "expired_skipped",
         "expired_not_counted", "expired_master_live_subkey", "subkey_file_loaded", "invalid_not_counted", "invalid_next_to_enough_valid",
         "gpg_sigdict:gpg_oh_nibble", "gpg_sigdict:gpg_sig_upper", "gpg_sigdict:gpg_oh_nonhex", "gpg_sigdict:gpg_oh_odd",
-        "gpg_sigdict:gpg_short_keyid_nonhex")]
+        "gpg_sigdict:gpg_short_keyid_nonhex",
+        "keyid_reused:first_x_signed_x", "keyid_reused:then_y_signed_x", "keyid_reused:then_y_signed_y",
+        "keyid_reused:sub_signed_x", "keyid_reused:sub_signed_y")]
 )
 
 
@@ -288,13 +319,16 @@ def run(ctx):
     n = 3300 if ctx.thorough() else 330
     families = ("ed25519", "rsa", "ecdsa") if ctx.thorough() else ("ed25519",)
     core.check_props(ctx, PROPS)
+    from vlib import ties2
+    # verify_link_signature_thresholds regenerated from the source as a whole (Gen/Fun02.v) and proved equal to the model's
+    ties2.run_flag(ctx, "--authorise", "Fun02.v", "Tie/C02.v")
     pinned, recs, model = vscen.run_all(ctx, opt_sets(ctx), n, families=families, use_gpg=True, pinned=PINNED)
     summary = check_pinned(ctx, pinned)
     return vcore.report(ctx, "C02", pinned + recs, model, PROPS,
                         "verification core disagrees with the model (authorisation / signature threshold)",
                         relevant=lambda r: any(t.startswith(C02_TAGS) for t in r["scen"]["tags"]),
                         extra_cov=gpg_cov(recs, summary),
-                        assumptions=["theorems about Model/Verify.v; tie: differential run of in_toto_verify on generated supply chains "
+                        assumptions=["theorems about Model/Verify.v; Tie/C02.v: verify_link_signature_thresholds regenerated from the source as a whole (the inverse subkey dictionary, the search over step.pubkeys, the loop over steps and link files with link.verify_signature / link.get_payload as oracles) and proved equal to the model's function on validated key stores with distinct step names; correspondence: differential run of in_toto_verify on generated supply chains "
                                      "over file-name key id x signer x authorised set x key-store shape x tampering, real gpg keys "
                                      "(master, signing subkeys, subkey authorised alone, expired key); pinned: D2b (open), D2a and D8 regressions",
                                      "gpg signature validity: table keyed by the key id of the (sub)key that really signed"])
